@@ -161,6 +161,13 @@ func (*c04) Corpus() []any {
 		o.name(fam, 0, path)
 		out = append(out, c04Case{Kind: "opts", Tag: "corpus-opts", Opts: o})
 	}
+	// false-alarm witness of the first flag-frame clause: b[0] is a list, "b[0].name=x" needs a table
+	// there and replaces it (strvals "indices out of order"); b[1] must stay
+	{
+		o := &c04Opts{Files: []vtree{{"b": []interface{}{[]interface{}{nil, "x"}, vtree{"keep": int64(1)}}}}, SetString: []string{"b[0].name=x"}}
+		o.name("string", 0, []c04Seg{{Key: "b", Idx: []int{0}}, {Key: "name"}})
+		out = append(out, c04Case{Kind: "opts", Tag: "corpus-opts", Opts: o})
+	}
 	fams := []string{"file", "json", "set", "string", "setfile", "literal"}
 	for i := 0; i < len(fams); i++ {
 		for j := i + 1; j < len(fams); j++ {
